@@ -24,6 +24,7 @@ import Drivers.Quality
 import Drivers.Unit
 import Drivers.Kexact
 import Drivers.SmoothInterp
+import Drivers.InterpPack
 import Drivers.Rcb
 import Drivers.Ugrid
 import Drivers.GatherMeshb
@@ -31,7 +32,11 @@ import Drivers.Repro
 import Drivers.Mixed
 import Drivers.ReconPar
 import Drivers.PartMeshb
+import Drivers.InterpLocate
+import Drivers.PhysDist
+import Drivers.MetricPipe
 import Drivers.Formats
+import Drivers.Cavity2
 
 /-! `refdrv <driver> [args]` : dispatch to a line-protocol driver. One match arm per driver, on one line. -/
 
@@ -61,6 +66,7 @@ def main (args : List String) : IO UInt32 := do
   | "unit" :: rest => Drivers.Unit.run rest
   | "kexact" :: rest => Drivers.Kexact.run rest
   | "smoothinterp" :: rest => Drivers.SmoothInterp.run rest
+  | "interppack" :: rest => Drivers.InterpPack.run rest
   | "rcb" :: rest => Drivers.Rcb.run rest
   | "ugrid" :: rest => Drivers.Ugrid.run rest
   | "gathermeshb" :: rest => Drivers.GatherMeshb.run rest
@@ -68,7 +74,11 @@ def main (args : List String) : IO UInt32 := do
   | "mixed" :: rest => Drivers.Mixed.run rest
   | "reconpar" :: rest => Drivers.ReconPar.run rest
   | "partmeshb" :: rest => Drivers.PartMeshb.run rest
+  | "interplocate" :: rest => Drivers.InterpLocate.run rest
+  | "physdist" :: rest => Drivers.PhysDist.run rest
+  | "metricpipe" :: rest => Drivers.MetricPipe.run rest
   | "formats" :: rest => Drivers.Formats.run rest
+  | "cavity2" :: rest => Drivers.Cavity2.run rest
   | _ =>
     IO.eprintln s!"refdrv: unknown driver {args}"
     return 2
